@@ -40,7 +40,7 @@ RULE = ("corpus/T06 + seeded worlds (config file + journal file + optional price
         "report zones; 5 group-by keys; 3 time-stamp styles; journal zone offset and default time; audit mode in 40% (5 algorithms, digests "
         "from hashlib); price conversion in 50% (last-price / txn-time / given-time with --price.before, lookup none with a commodity); "
         "--api-filter-def in 30% (depth<=2 trees: and/or/not, regex leaves on description/code/account/commodity/comments/tags, amount "
-        "comparisons, uuid, time-stamp leaves under UTC, bounding box); journal layout varied (indentation, blank lines, CRLF, order of "
+        "comparisons, uuid, time-stamp leaves under every report zone, bounding box); journal layout varied (indentation, blank lines, CRLF, order of "
         "metadata lines); ~15% failing worlds (syntax error, unbalanced transaction, missing / duplicate uuid in audit mode, empty "
         "selection, broken price file, lookup without report commodity). Compared: exit status 0 <=> model Ok; standard output (console) "
         "resp. every file of the output directory and the announcements byte for byte; failing runs print nothing and write no file; "
@@ -110,7 +110,7 @@ def gen_tree(r, depth, allow_ts, uuids):
         return [r.choice(["and", "or"]), [gen_tree(r, depth - 1, allow_ts, uuids) for _ in range(r.choice([0, 1, 2, 2, 3]))]]
     if depth > 0 and k < 0.42:
         return ["not", gen_tree(r, depth - 1, allow_ts, uuids)]
-    leaf = r.choice(["true", "false", "desc", "desc", "code", "tags", "comments", "uuid", "begin", "end", "pacc", "pacc", "pcomment", "pcomm",
+    leaf = r.choice(["true", "false", "desc", "desc", "code", "tags", "comments", "uuid", "begin", "end", "begin", "end", "pacc", "pacc", "pcomment", "pcomm",
                      "amount", "amount", "bbox"])
     if leaf in ("begin", "end") and not allow_ts:
         leaf = "desc"
@@ -123,7 +123,8 @@ def gen_tree(r, depth, allow_ts, uuids):
     if leaf == "uuid":
         return ["uuid", r.choice(uuids).lower()]
     if leaf in ("begin", "end"):
-        return [leaf, r.choice(["2024-01-01T00:00:00Z", "2024-02-10T12:30:45Z", "2023-12-31T23:59:59Z", "2024-03-01T00:00:00.5Z"])]
+        return [leaf, r.choice(["2024-01-01T00:00:00Z", "2024-02-10T12:30:45Z", "2023-12-31T23:59:59Z", "2024-03-01T00:00:00.5Z", "2023-01-01T00:00:00Z",
+                               "2024-02-29T20:15:00.123456789Z", "2025-01-01T00:00:00Z"])]
     if leaf == "amount":
         return ["amount", r.choice(["eq", "lt", "gt"]), r.choice(REGEXES), list(r.choice([(1, 0), (1250, 2), (-5, 1), (0, 0), (100, 1), (25, 1)]))]
     return ["bbox"] + list(r.choice([(59, 24, 61, 26), (-10, -20, 10, 20), (0, 0, 0, 0), (-90, -180, 90, 180)]))
@@ -274,6 +275,8 @@ def gen_prices(r, comms, rc):
         rate = J.dec_str(r.randint(1, 99999), r.randint(0, 4))
         if r.random() < 0.04:
             rate = J.dec_str(r.randint(1, 10 ** 23), 22)        # a product beyond 28 decimals: outside the exact domain (skipped)
+        elif r.random() < 0.03:
+            rate = "7922816251426433759354395033"                # x an amount >= 10.1: the value does not fit 96 bits: the report fails (exit 1)
         eq = rc if r.random() < 0.85 else "USD"
         lines.append("P %s %s %s %s%s" % (ts, base, rate, eq, r.choice(["", "", " ; c"])))
     if r.random() < 0.2:
@@ -431,8 +434,6 @@ def apply_profile(r, w, profile, accounts):
             w["audit"] = True
         if k >= 0.4 or w["filter"] is None and not w["audit"]:
             w["filter"] = ["or", [w["filter"] or ["false"], ["amount", "gt", REGEXES[2], [0, 0]]]]      # every transaction has a positive posting
-        if w["filter"] is not None and has_ts(w["filter"]) and ZONES[w["rtz"]] != 0:
-            w["filter"] = ["not", ["false"]]
         if w["audit"]:
             for t in txns:
                 t["uuid"] = t["uuid"] or rand_uuid(r)
@@ -499,7 +500,7 @@ def gen_world(r, idx, profile=None):
          "filter": None, "prefix": r.choice(["r", "out", "my-run"]), "break": None}
     uuids = [t["uuid"] for t in txns if t["uuid"]]
     if r.random() < 0.3:
-        w["filter"] = gen_tree(r, 2, zone in ("UTC", "Etc/UTC"), uuids)
+        w["filter"] = gen_tree(r, 2, True, uuids)        # time-stamp leaves under every report zone (described in that zone)
         k = r.random()
         if k < 0.35:          # keep the share of empty selections moderate: widen the selection
             w["filter"] = ["or", [w["filter"], r.choice([["desc", REGEXES[5]], ["pacc", REGEXES[1]], ["amount", "gt", REGEXES[2], [0, 0]]])]]
